@@ -187,8 +187,9 @@ def code_rev():
 
 
 def write_replay(prop, seed, run_index, case, vinfo, tag=""):
-    os.makedirs(os.path.join(VERIF, "replays"), exist_ok=True)
-    path = os.path.join(VERIF, "replays", f"{prop}-{seed}-{run_index}{tag}.json")
+    rdir = os.environ.get("VERIF_REPLAY_DIR") or os.environ.get("VERIF_EVIDENCE_DIR") or os.path.join(VERIF, "replays")
+    os.makedirs(rdir, exist_ok=True)
+    path = os.path.join(rdir, f"{prop}-{seed}-{run_index}{tag}.json")
     with open(path, "w") as f:
         json.dump({"property": prop, "seed": seed, "run_index": run_index, "case": case, "violation": vinfo,
                    "code_rev": code_rev()}, f, indent=1, sort_keys=True)
@@ -372,11 +373,12 @@ def run_check(prop: str, tier: str, seed: int) -> int:
         "property_id": prop, "tier": tier, "seed": seed, "level": mod.LEVEL, "coverage": cov,
         "assumptions": mod.ASSUMPTIONS, "wall_s": round(wall, 2), "violations": sum(1 for p in printed if p.startswith("VIOLATION")),
     }
-    os.makedirs(os.path.join(VERIF, "evidence"), exist_ok=True)
-    tmp = os.path.join(VERIF, "evidence", f".{prop}.json.tmp")
+    edir = os.environ.get("VERIF_EVIDENCE_DIR") or os.path.join(VERIF, "evidence")
+    os.makedirs(edir, exist_ok=True)
+    tmp = os.path.join(edir, f".{prop}.json.tmp")
     with open(tmp, "w") as f:
         json.dump(ev, f, indent=1, sort_keys=True)
-    os.replace(tmp, os.path.join(VERIF, "evidence", f"{prop}.json"))
+    os.replace(tmp, os.path.join(edir, f"{prop}.json"))
     for line in printed:
         print(line)
     print(f"{prop} tier={tier} seed={seed} runs={completed} ok={total.get('runs_ok',0)} discarded={sum(discards.values())} "
